@@ -72,6 +72,9 @@ def operand_atoms(*texts):
                 ops.setdefault(("res", p.info["key"]), p.info)
             elif p.tag == "name":
                 ops.setdefault(("name", p.info["key"]), p.info)
+            elif p.tag == "opq" and isinstance(p.info, dict) and "key" in p.info:
+                # a raw (unescaped) argument string spliced into the pattern: rendered with an adversarial value
+                ops.setdefault(("raw", p.info["key"]), p.info)
             else:
                 raise CheckerError(f"piece {p!r} cannot be rendered for the regex parser")
     return ops, nums
@@ -95,6 +98,8 @@ def render(text, assign, numvals):
             out.append(assign[("res", p.info["key"])])
         elif p.tag == "name":
             out.append(assign[("name", p.info["key"])])
+        elif p.tag == "opq":
+            out.append(assign[("raw", p.info["key"])])
         elif p.tag == "dec":
             out.append(str(numvals[p.term.sexpr()]))
     return "".join(out)
@@ -273,6 +278,8 @@ def same_tree(eng, path, emitted, reference, cats=None):
             options.append(info.get("cats", [ALT, BRANCH, PIECE, ATOM]))
         elif k[0] == "name":
             options.append(["NAME"])
+        elif k[0] == "raw":
+            options.append(["RAW"])
     consts = set()
     import re as _re
     for t in (emitted, reference):
@@ -301,7 +308,16 @@ def same_tree(eng, path, emitted, reference, cats=None):
             for k, cat in zip(keys, combo):
                 if cat == "NAME":
                     assign[k] = "n%d_" % len(assign)
-                else:
+                elif cat == "RAW":
+                    lc = ops[k].get("lenclass")
+                    raw = {"str1": ".", "str2": "x|", None: "x|y."}[lc]
+                    assign[k] = raw
+                    # the escaped form of the SAME string, wherever ESC(s) occurs, is rendered consistently
+                    esc_key = ("esc", repr((("atom", ops[k]["term_sexpr"]),))) if "term_sexpr" in ops[k] else None
+                    for k2 in keys:
+                        if k2[0] == "esc" and ops[k2].get("of_key") == k[1]:
+                            assign[k2] = "".join("\\" + c if c in "\\^$()[]{}?+*.|/" else c for c in raw)
+                elif k not in assign:
                     assign[k] = placeholder(ph, cat, k)
             e_txt = render(emitted, assign, vals)
             r_txt = render(reference, assign, vals)
